@@ -6,9 +6,41 @@
 From Coq Require Import Reals List.
 From Coquelicot Require Import Complex.
 From SpdVerif Require Import Base.CfgNumOps Model.NumInst Spec.ConfigSpec Gen.ConfigTables Gen.ConfigSites Model.ConfigTypes Model.Config Model.NormSpectrum
-  Proofs.C20_idempotent Proofs.C20_spectrum.
+  Proofs.C20_idempotent Proofs.C20_spectrum Gen.CfgSteps Gen.C20_SpectrumSteps Proofs.CfgSteps_eq Proofs.C20_spectrum_steps_eq.
 Import ListNotations.
 Local Open Scope R_scope.
+
+(* The models ARE the source: the statement-by-statement translations of SPDC::try_as_optimum, JointSpectrum::new, the accessors,
+   the range / idler variants and the two sweep functions GENERATED from the source equal the models the theorems are about
+   (instantiated with the flags of try_as_optimum read off the source). *)
+Theorem C20_try_as_optimum_is_generated : forall num (o : NumOps num) K minpos (s : spdc num),
+  gen_try_as_optimum o K minpos s = try_as_optimum o K minpos optimum_idler_sees_old_poling optimum_waist_sees_old_idler s.
+Proof. exact gen_try_as_optimum_eq. Qed.
+
+Theorem C20_spectrum_is_generated : forall K minpos jsa_raw singles_raw norm_jsi norm_singles freq pm_inv,
+  (forall s, gen_joint_spectrum_new K minpos jsa_raw singles_raw norm_jsi norm_singles freq s =
+             joint_spectrum_new K minpos optimum_idler_sees_old_poling optimum_waist_sees_old_idler jsa_raw singles_raw norm_jsi norm_singles freq s) /\
+  (forall j ws wi,
+     gen_jsa jsa_raw norm_jsi j ws wi = jsa jsa_raw norm_jsi j ws wi /\
+     gen_jsi jsa_raw norm_jsi j ws wi = jsi jsa_raw norm_jsi j ws wi /\
+     gen_jsi_singles singles_raw norm_singles j ws wi = jsi_singles singles_raw norm_singles j ws wi /\
+     gen_jsa_normalized jsa_raw norm_jsi j ws wi = jsa_normalized jsa_raw norm_jsi j ws wi /\
+     gen_jsi_normalized jsa_raw norm_jsi j ws wi = jsi_normalized jsa_raw norm_jsi j ws wi /\
+     gen_jsi_singles_normalized singles_raw norm_singles j ws wi = jsi_singles_normalized singles_raw norm_singles j ws wi) /\
+  (forall j grid,
+     gen_jsi_singles_idler_normalized_range K minpos jsa_raw singles_raw norm_jsi norm_singles freq pm_inv j grid =
+     jsi_singles_idler_normalized_range K minpos optimum_idler_sees_old_poling optimum_waist_sees_old_idler jsa_raw singles_raw norm_jsi norm_singles freq pm_inv j grid) /\
+  (forall base setups,
+     gen_jsi_values jsa_raw norm_jsi freq setups = jsi_values jsa_raw norm_jsi freq setups /\
+     gen_jsi_values_normalized K minpos jsa_raw norm_jsi freq base setups =
+     jsi_values_normalized K minpos optimum_idler_sees_old_poling optimum_waist_sees_old_idler jsa_raw norm_jsi freq base setups).
+Proof.
+  exact (fun K minpos jsa_raw singles_raw norm_jsi norm_singles freq pm_inv =>
+    conj (gen_new_eq K minpos jsa_raw singles_raw norm_jsi norm_singles freq)
+    (conj (gen_accessors_eq jsa_raw singles_raw norm_jsi norm_singles)
+    (conj (gen_idler_range_eq K minpos jsa_raw singles_raw norm_jsi norm_singles freq pm_inv)
+          (gen_sweeps_eq K minpos jsa_raw norm_jsi freq)))).
+Qed.
 
 (* op / oi: the two flags of try_as_optimum READ OFF THE SOURCE by the generator (Gen/ConfigSites.v:
    optimum_idler_sees_old_poling, optimum_waist_sees_old_idler; both true on the current tree).  The theorems hold for both values.
@@ -117,6 +149,8 @@ Example C20_ex_optimises : exists s s' nf, idler_consistent s /\
   try_as_optimum R_ops ex_K 0 optimum_idler_sees_old_poling optimum_waist_sees_old_idler s = Ok (s', nf).
 Proof. exact (ex_optimises optimum_idler_sees_old_poling optimum_waist_sees_old_idler). Qed.
 
+Print Assumptions C20_try_as_optimum_is_generated.
+Print Assumptions C20_spectrum_is_generated.
 Print Assumptions C20_idempotent_now.
 Print Assumptions C20_unit_at_centre_of_optimum.
 Print Assumptions C20_idempotent.
